@@ -1,7 +1,8 @@
 """C10 Disk-chopper open/close times are exactly the openings of the rotating disk.
 
-Monitors sit on ``DiskChopper.__post_init__`` (acceptance / rejection of slit sets),
-``time_offset_open``, ``time_offset_close``, ``open_duration`` and
+Monitors sit on ``DiskChopper.__post_init__`` and ``DiskChopper.from_nexus`` (acceptance /
+rejection of slit sets: begin < end for every slit, no overlap on the disk, a slit wider than a
+turn overlaps itself), ``time_offset_open``, ``time_offset_close``, ``open_duration`` and
 ``Chopper.from_disk_chopper`` (observed through their code objects, so the nested calls
 made by ``open_duration`` and by the cascade are seen as well).  Every reported
 (open, close) pair is put on an independent rotating disk (``rv.oracle.disk``): the
@@ -16,7 +17,7 @@ import numpy as np
 import scipp as sc
 
 from rv.oracle import si
-from rv.oracle.disk import LD, TWO_PI, Disk, ratio_distance
+from rv.oracle.disk import LD, TWO_PI, Disk, ratio_distance, slit_set_geometry
 from rv.trace import Tracer
 
 ID = 'C10'
@@ -26,11 +27,20 @@ RULE = (
     'between / beyond 1e-7 relative / clearly non-integer; 1..6 slits from a random partition of '
     'the circle, optionally spanning TDC written as end>360 or as negative begin, shuffled; beam '
     'position and phase in [-4pi,4pi]; deg/rad; Hz/kHz/1/min for chopper and source independently; '
-    'constructed directly or through from_nexus) or one slit set with a constructed overlap '
-    '(linear, through 360 deg with end>360, through 0 with negative begin); every public call on it '
-    '(constructor, time_offset_open/close, open_duration, Chopper.from_disk_chopper with 1..4 '
-    'pulses) is one evaluation; distinct = distinct (call, ratio, sense, band, slit count, TDC '
-    'representation, units, construction route) signatures; no case is trivial'
+    'constructed directly, through dataclasses.replace or through from_nexus (slit_edges or '
+    'slit_begin/slit_end)) or one slit set the documentation forbids.  Forbidden sets are a '
+    'deterministic grid in every shard: class (slit across TDC written begin>end, one slit '
+    'reversed, begin/end arrays exchanged, a slit wider than one turn with end>360 / negative '
+    'begin / more than two turns, two slits overlapping on the line / through 360 deg / through 0 '
+    'from either side, nested, identical, identical after a whole turn) x number of slits 1..6 '
+    '(pairs 2..6) x deg/rad x construction path (constructor, replace, from_nexus both layouts, '
+    '0-d edges), a quarter of them forbidden by 1e-5..1e-3 deg only; next to them valid edge sets '
+    '(single slit 200..359 deg in all three notations, single slit just short of a full turn, gaps of '
+    '1e-5..1e-3 deg on the line and through TDC).  Every public call on an accepted chopper -- also a '
+    'wrongly accepted one -- (constructor, time_offset_open/close, open_duration, '
+    'Chopper.from_disk_chopper with 1..4 pulses) is one evaluation; distinct = distinct (call, ratio, '
+    'sense, band, slit count, TDC representation, units, construction route, forbidden class) '
+    'signatures; no case is trivial'
 )
 ASSUMPTIONS = [
     'numpy long double (x87 80 bit) evaluates the disk angle alpha(dt) = beam_position + phase - '
@@ -39,15 +49,23 @@ ASSUMPTIONS = [
     'anticlockwise, phase = omega (t0 + delay - T0)) define the physical disk',
     'slit sets are given the way the documentation describes: angles from TDC within one turn, a '
     'slit spanning TDC written with end > 360 deg or with a negative begin',
+    'what the documentation forbids: "For a given slit, we require begin < end" (so a slit across '
+    'TDC written 350 -> 10 deg is refused), and slits that overlap on the disk, including through '
+    'TDC, which includes a slit wider than one turn overlapping itself; refusal is ValueError on '
+    'every construction path; sets exactly on a threshold (zero width, exactly one turn, touching '
+    'slits; |margin| <= 1e-9 rad) are not judged, their outcome is tallied in the counters',
 ]
-TECHNIQUE = ('runtime monitors (sys.monitoring) on DiskChopper.__post_init__, time_offset_open/close, '
+TECHNIQUE = ('runtime monitors (sys.monitoring) on DiskChopper.__post_init__, from_nexus, time_offset_open/close, '
              'open_duration and Chopper.from_disk_chopper; independent rotating-disk simulator '
              '(is-a-slit-over-the-beam predicate in long double), rising-edge scan for completeness')
 LEVEL_TEXT = ('exploration: every open/close pair observed in hostile generated workloads is checked '
               'against the state of an independently simulated disk (open inside, closed just outside to '
               'within the float64 rounding bound of the times, duration, one opening per slit and '
-              'rotation, no opening of the covered span missing); acceptance of frequency ratios and '
-              'slit sets is compared with the circle geometry.  Sampling, not a proof.')
+              'rotation, no opening of the covered span missing, no two reported openings overlapping '
+              'in time, none longer than a rotation); acceptance of frequency ratios and slit sets '
+              '(begin < end, no overlap on the circle incl. self-overlap) is compared with the circle '
+              'geometry on every construction path, and what a wrongly accepted chopper reports is '
+              'judged again (open < close, duration, overlap in time).  Sampling, not a proof.')
 LEVEL_NOTE = ('trusted: numpy long double, the independent SI table (cross-checked against sc.to_unit at '
               'start-up), scipp containers, the disk model derived from the module documentation')
 DESIGN_REF = 'DESIGN.md section 4, C10'
@@ -65,7 +83,8 @@ F_UNITS = ['Hz', 'kHz', '1/min']
 F_UNIT_HZ = {'Hz': 1.0, 'kHz': 1000.0, '1/min': 1 / 60}
 OPENING_CHECKS = ('open_not_before_close', 'closed_inside_interval', 'open_outside_interval',
                   'duration', 'slit_multiplicity', 'duplicate_opening', 'missing_opening',
-                  'non_finite', 'shape', 'span_shorter_than_requested')
+                  'non_finite', 'shape', 'span_shorter_than_requested', 'overlapping_openings',
+                  'longer_than_rotation')
 
 
 # ------------------------------------------------------------ observation ---
@@ -97,8 +116,16 @@ def angle_magnitude(ch, disk, rotations):
     return m + TWO_PI * (rotations + 2)
 
 
-def check_openings(disk, to, tc, tol_t, min_span=None):
-    """Put reported intervals on the disk.  Returns (problems: dict check -> info, stats)."""
+def check_openings(disk, to, tc, tol_t, min_span=None, geometry_valid=True):
+    """Put reported intervals on the disk.  Returns (problems: dict check -> info, stats).
+
+    The first checks hold for the openings of *any* uniformly rotating disk and need no valid
+    slit set: open < close, no opening longer than one rotation, no two reported openings
+    overlapping in time.  With ``geometry_valid=False`` (the observed chopper carries a slit set
+    the documentation forbids, i.e. it should never have been constructed) only those and
+    "duration = some slit's width / |omega|" are judged: the is-open predicate, the feature-sized
+    probes and the rising-edge scan are not defined for such a disk.
+    """
     prob = {}
     stats = {}
     n = to.size
@@ -116,6 +143,45 @@ def check_openings(disk, to, tc, tol_t, min_span=None):
         i = int(np.argmin(ordered))
         prob['open_not_before_close'] = {'n': int(np.count_nonzero(~ordered)), 'index': i,
                                          'open': float(to[i]), 'close': float(tc[i])}
+    # no two reported openings overlap in time (distinct openings of a disk are separated by a
+    # closed gap; tol_t bounds the rounding of each reported time)
+    lo, hi = np.minimum(to, tc), np.maximum(to, tc)
+    by_lo = np.argsort(lo, kind='stable')
+    if n > 1:
+        run_hi = np.maximum.accumulate(hi[by_lo])[:-1]
+        amount = run_hi - lo[by_lo][1:]
+        over = amount > 2 * tol_t
+        if np.any(over):
+            j = int(np.argmax(amount))
+            first = int(by_lo[int(np.argmax(hi[by_lo][:j + 1]))])
+            second = int(by_lo[j + 1])
+            prob['overlapping_openings'] = {
+                'n': int(np.count_nonzero(over)), 'indices': [first, second],
+                'intervals': [[float(to[first]), float(tc[first])],
+                              [float(to[second]), float(tc[second])]],
+                'overlap_s': float(amount[j]), 'rotation_period_s': float(period)}
+    # an opening of a disk whose slits do not overlap (themselves) is shorter than one rotation
+    long = (hi - lo) > period + 2 * tol_t
+    if np.any(long):
+        i = int(np.argmax(hi - lo))
+        prob['longer_than_rotation'] = {'n': int(np.count_nonzero(long)), 'index': i,
+                                        'open': float(to[i]), 'close': float(tc[i]),
+                                        'rotation_period_s': float(period)}
+    if not geometry_valid:
+        # duration = width / |omega| for some slit of this disk (signed: a slit given with
+        # begin > end has no positive duration to report)
+        want = disk.width / absw
+        d = np.abs((tc - to)[:, None] - want[None, :])
+        k = np.argmin(d, axis=1)
+        err = d[np.arange(n), k]
+        stats['duration_err/tol'] = float(np.max(err) / tol_t)
+        if np.any(err > 2 * tol_t):
+            i = int(np.argmax(err))
+            prob['duration'] = {'index': i, 'got': float(tc[i] - to[i]),
+                                'expected': float(want[k[i]]),
+                                'n': int(np.count_nonzero(err > 2 * tol_t))}
+        stats['grid_points'] = 0
+        return prob, stats
     feat = disk.min_feature()
     d_c = feat / 1000 / absw
     d_t = tol_t
@@ -265,52 +331,118 @@ class Monitors:
         ctx.hit('ratio in the undecided band')
         return None
 
-    # -- DiskChopper.__post_init__ ---------------------------------------------
-    def on_post_init(self, ev):
+    # -- DiskChopper.__post_init__ / DiskChopper.from_nexus --------------------
+    def judge_slit_set(self, where, begin, end, exc, route=None):
+        """Acceptance of a slit set, judged from the documentation: begin < end for every slit
+        and no overlap on the disk (also through TDC, also of a slit with itself because it is
+        wider than a full turn) -- anything else must be refused with ValueError."""
         ctx = self.ctx
-        ch = ev.args.get('self')
         try:
-            b, e = _rad(ch.slit_begin), _rad(ch.slit_end)
-            if b.shape != e.shape or b.ndim != 1 or b.size == 0 or np.any(b >= e) or np.any(
-                    e - b >= TWO_PI):
+            if begin.unit != end.unit:
                 ctx.count('out_of_domain:slit edges')
                 return
-            disk = Disk(1, 0, b, e)
-            gaps = disk.circle_gaps()
-            mg = float(np.min(gaps))
-            lg = disk.line_gaps()
-            wrap_only = bool(lg.size == 0 or np.min(lg) > GAP_BAND)
-            facts = {'wrap_only': wrap_only,
-                     'end_gt_360': bool(np.any(e > TWO_PI)),
-                     'negative_begin': bool(np.any(b < 0))}
+            b, e = _rad(begin), _rad(end)
+            geo = slit_set_geometry(b, e, GAP_BAND)
+            if geo['verdict'] == 'out_of_domain':
+                ctx.count('out_of_domain:slit edges')
+                return
+            b, e = b.ravel(), e.ravel()
+            facts = {'end_gt_360': bool(np.any(e > TWO_PI)),
+                     'negative_begin': bool(np.any(b < 0)),
+                     'single_slit': bool(b.size == 1)}
+            if geo['reason'] == 'overlap':
+                lg = Disk(1, 0, b, e).line_gaps()
+                facts['wrap_only'] = bool(lg.size == 0 or np.min(lg) > GAP_BAND)
         except Exception:  # noqa: BLE001
-            ctx.oracle_error('C10 post_init')
+            ctx.oracle_error(f'C10 {where}')
             return
-        case = dict(self.case, slit_begin=_values(ch.slit_begin), slit_end=_values(ch.slit_end),
-                    unit=str(ch.slit_begin.unit), min_gap_rad=mg,
-                    exception=None if ev.exc is None else f'{type(ev.exc).__name__}: {ev.exc}'[:200])
-        if mg > GAP_BAND:
-            ctx.event('ctor.must_accept')
-            if ev.exc is not None:
-                kind = 'ctor.rejected_disjoint' if isinstance(ev.exc, ValueError) else 'ctor.raised'
-                ctx.violation(kind, f'disjoint slit set (min gap {mg:.3g} rad) rejected with '
-                              f'{type(ev.exc).__name__}', case, exc=type(ev.exc).__name__,
+        pre = 'ctor' if where == '__post_init__' else 'from_nexus'
+        if route is not None:
+            facts['route'] = route
+        mg = geo['margin']
+        case = dict(self.case, where=where, slit_begin=_values(begin), slit_end=_values(end),
+                    unit=str(begin.unit), geometry=geo,
+                    exception=None if exc is None else f'{type(exc).__name__}: {exc}'[:200])
+        if geo['verdict'] == 'valid':
+            ctx.event(f'{pre}.must_accept')
+            if facts['single_slit']:
+                ctx.hit(f'{pre}: valid single slit')
+            if exc is not None:
+                kind = f'{pre}.rejected_disjoint' if isinstance(exc, ValueError) else f'{pre}.raised'
+                ctx.violation(kind, f'{where}: valid slit set (begin < end, min gap/width {mg:.3g} rad) '
+                              f'rejected with {type(exc).__name__}', case, exc=type(exc).__name__,
                               end_gt_360=facts['end_gt_360'], negative_begin=facts['negative_begin'])
-        elif mg < -GAP_BAND:
-            ctx.event('ctor.must_reject')
-            cls = ('overlap only through TDC, end>360' if facts['end_gt_360'] else
-                   'overlap only through TDC, negative begin') if wrap_only else 'overlap on the line'
-            ctx.hit(cls)
-            if ev.exc is None:
-                ctx.violation('ctor.overlap_accepted',
-                              f'slits overlapping by {-mg:.3g} rad on the disk accepted ({cls})',
+        elif geo['verdict'] == 'invalid':
+            reason = geo['reason']
+            ctx.event(f'{pre}.must_reject')
+            ctx.event(f'{pre}.must_reject.{reason}')
+            if reason == 'overlap':
+                cls = (('overlap only through TDC, end>360' if facts['end_gt_360'] else
+                        'overlap only through TDC, negative begin') if facts['wrap_only']
+                       else 'overlap on the line')
+                text = f'slits overlapping by {mg:.3g} rad on the disk'
+            elif reason == 'self_overlap':
+                cls = ('single slit wider than a full turn' if facts['single_slit'] else
+                       'slit wider than a full turn among several')
+                text = f'a slit {mg:.3g} rad wider than a full turn (overlaps itself through TDC)'
+            else:
+                cls = 'reversed single slit' if facts['single_slit'] else 'reversed slit among several'
+                text = f'a slit with begin > end (by {mg:.3g} rad)'
+            if pre == 'ctor':
+                ctx.hit(cls)
+            else:
+                ctx.hit(f'from_nexus: {reason}')
+            if exc is None:
+                ctx.violation(f'{pre}.{reason}_accepted', f'{where}: {text} accepted ({cls})',
                               case, **facts)
-            elif not isinstance(ev.exc, ValueError):
-                ctx.violation('ctor.wrong_exception',
-                              f'{type(ev.exc).__name__} instead of ValueError for overlapping slits',
-                              case, exc=type(ev.exc).__name__, **facts)
+            elif not isinstance(exc, ValueError):
+                ctx.violation(f'{pre}.wrong_exception',
+                              f'{where}: {type(exc).__name__} instead of ValueError for {text}',
+                              case, exc=type(exc).__name__, reason=reason, **facts)
         else:
-            ctx.count('undecided:slits touching')
+            ctx.count(f'undecided:slits {geo["reason"]}')
+            ctx.count(f'undecided:slits {geo["reason"]}:' + ('accepted' if exc is None else
+                                                             f'rejected with {type(exc).__name__}'))
+
+    def on_post_init(self, ev):
+        ch = ev.args.get('self')
+        try:
+            begin, end = ch.slit_begin, ch.slit_end
+            if not (isinstance(begin, sc.Variable) and isinstance(end, sc.Variable)):
+                self.ctx.count('out_of_domain:slit edges')
+                return
+        except Exception:  # noqa: BLE001
+            self.ctx.oracle_error('C10 post_init')
+            return
+        self.judge_slit_set('__post_init__', begin, end, ev.exc)
+
+    def on_from_nexus(self, ev):
+        """from_nexus is documented to take [begin_0, end_0, begin_1, end_1, ...] as slit_edges or
+        separate slit_begin / slit_end; the same slit sets must be refused on this path."""
+        ctx = self.ctx
+        try:
+            m = ev.args.get('chopper')
+            need = ('position', 'rotation_speed', 'beam_position', 'phase')
+            if not hasattr(m, 'get') or any(m.get(k) is None for k in need) or m.get(
+                    'type') is not None:
+                ctx.count('out_of_domain:from_nexus mapping')
+                return
+            edges = m.get('slit_edges')
+            if edges is not None:
+                if ('slit_begin' in m or 'slit_end' in m or not isinstance(edges, sc.Variable)
+                        or edges.ndim != 1 or len(edges) % 2 or len(edges) == 0):
+                    ctx.count('out_of_domain:from_nexus mapping')
+                    return
+                begin, end, route = edges[::2], edges[1::2], 'slit_edges'
+            else:
+                begin, end, route = m.get('slit_begin'), m.get('slit_end'), 'slit_begin/slit_end'
+                if not (isinstance(begin, sc.Variable) and isinstance(end, sc.Variable)):
+                    ctx.count('out_of_domain:from_nexus mapping')
+                    return
+        except Exception:  # noqa: BLE001
+            ctx.oracle_error('C10 from_nexus')
+            return
+        self.judge_slit_set('from_nexus', begin, end, ev.exc, route=route)
 
     # -- time_offset_open / time_offset_close ----------------------------------
     def on_edge_time(self, which, ev):
@@ -352,16 +484,26 @@ class Monitors:
                 ctx.count('pair.direct.repeat_of_judged_pair')
                 return self.cache[key]
             disk, _ = disk_of(ch)
+            geo = slit_set_geometry(disk.begin, disk.end, GAP_BAND)
+            if geo['verdict'] not in ('valid', 'invalid'):
+                ctx.count(f'pair_not_judged:slit set {geo["verdict"]} ({geo["reason"]})')
+                return None
+            valid = geo['verdict'] == 'valid'
             rot = int(np.ceil(max(ri['ratio'], 1.0))) + 1
             tol_t = K_TOL * EPS * angle_magnitude(ch, disk, rot) / abs(disk.omega)
-            prob, stats = check_openings(disk, to, tc, tol_t, min_span=1 / ri['fp_hz'])
+            prob, stats = check_openings(disk, to, tc, tol_t, min_span=1 / ri['fp_hz'],
+                                         geometry_valid=valid)
         except Exception:  # noqa: BLE001
             ctx.oracle_error('C10 direct pair')
             return None
-        ok = self._report('direct', prob, stats, ch, ri, to, tc, npulses=1)
+        ok = self._report('direct', prob, stats, ch, ri, to, tc, npulses=1,
+                          extra_keys={'slit_set': 'valid' if valid else geo['reason']})
         self.cache[key] = ok
-        ctx.event('pair.direct')
-        ctx.event('intervals.direct', int(to.size))
+        if valid:
+            ctx.event('pair.direct')
+            ctx.event('intervals.direct', int(to.size))
+        else:
+            ctx.event('pair.direct.forbidden_slit_set')
         return ok
 
     def _report(self, origin, prob, stats, ch, ri, to, tc, npulses, extra_keys=None):
@@ -429,16 +571,36 @@ class Monitors:
                 return
             # slit under the beam in the middle of each observed interval (also when the
             # interval itself is wrong the duration must be that of a slit of this disk)
-            k = disk.slit_at(to + (tc - to) / 2)
-            if np.any(k < 0):
-                ctx.count('open_duration.not_judged:interval midpoint closed')
+            geo = slit_set_geometry(disk.begin, disk.end, GAP_BAND)
+            if geo['verdict'] not in ('valid', 'invalid'):
+                ctx.count(f'open_duration.not_judged:slit set {geo["verdict"]}')
                 return
-            want = disk.width[k] / abs(disk.omega)
+            k = disk.slit_at(to + (tc - to) / 2)
+            if geo['verdict'] == 'valid':
+                if np.any(k < 0):
+                    ctx.count('open_duration.not_judged:interval midpoint closed')
+                    return
+                want = disk.width[k] / abs(disk.omega)
+            else:
+                # forbidden slit set in use: the duration is that of some slit of this disk
+                # (signed width: a slit with begin > end has no positive duration)
+                allw = disk.width / abs(disk.omega)
+                want = allw[np.argmin(np.abs(dur[:, None] - allw[None, :]), axis=1)]
             err = np.abs(dur - want)
+            not_pos = dur <= 0
         except Exception:  # noqa: BLE001
             ctx.oracle_error('C10 open_duration')
             return
-        ctx.event('open_duration')
+        ctx.event('open_duration' if geo['verdict'] == 'valid' else 'open_duration.forbidden_slit_set')
+        if np.any(not_pos):
+            i = int(np.argmin(dur))
+            ctx.violation('open_duration.not_positive',
+                          f'open_duration {float(dur[i])!r} s is not a positive duration',
+                          dict(self.case, chopper=_describe(ch), got=float(dur[i]), index=i,
+                               n=int(np.count_nonzero(not_pos))),
+                          sense='clockwise' if ri['f_hz'] < 0 else 'anticlockwise',
+                          slit_set='valid' if geo['verdict'] == 'valid' else geo['reason'])
+            return
         ctx.dev('open_duration.err/tol', float(np.max(err) / tol_t))
         if np.any(err > 2 * tol_t):
             i = int(np.argmax(err))
@@ -502,7 +664,13 @@ class Monitors:
                 if 'open' in slot and 'close' in slot:
                     direct_ok = self.cache.get((id(ch), slot.get('fp'), _bits(slot['open']),
                                                 _bits(slot['close'])))
-            prob, stats = check_openings(disk, to, tc, tol_t, min_span=npulses * t_pulse)
+            geo = slit_set_geometry(disk.begin, disk.end, GAP_BAND)
+            if geo['verdict'] not in ('valid', 'invalid'):
+                ctx.count(f'cascade_not_judged:slit set {geo["verdict"]} ({geo["reason"]})')
+                return
+            valid = geo['verdict'] == 'valid'
+            prob, stats = check_openings(disk, to, tc, tol_t, min_span=npulses * t_pulse,
+                                         geometry_valid=valid)
         except Exception:  # noqa: BLE001
             ctx.oracle_error('C10 cascade')
             return
@@ -510,10 +678,14 @@ class Monitors:
         origin = 'cascade'
         if pulsecopy:
             origin = 'cascade_pulsecopy_' + ('ge1' if ri['kind'] == 'multiple' else 'sub')
-        ctx.event(f'cascade.npulses={npulses}')
-        ctx.event('intervals.cascade', int(to.size))
+        if valid:
+            ctx.event(f'cascade.npulses={npulses}')
+            ctx.event('intervals.cascade', int(to.size))
+        else:
+            ctx.event('cascade.forbidden_slit_set')
         self._report(origin, prob, stats, ch, ri, to, tc, npulses,
-                     extra_keys={'per_pulse_copy_of_valid_single_pulse_openings': pulsecopy})
+                     extra_keys={'per_pulse_copy_of_valid_single_pulse_openings': pulsecopy,
+                                 'slit_set': 'valid' if valid else geo['reason']})
 
 
 def _values(v):
@@ -557,27 +729,27 @@ def gen_slits_deg(rng, n, span_tdc):
     return b, e, w, g, (spanning[0] if spanning else None)
 
 
-def gen_case(rng, ctx):
-    c = {}
-    n = int(rng.integers(1, 7))
-    r = rng.random()
-    overlap = None
-    if r < 0.25 and n >= 2:
-        # the spanning slit is written with end > 360 or with a negative begin, and overlaps its neighbour
-        # after top-dead-centre (its end reaches into the next slit) or before it (its begin reaches back)
-        overlap = ['linear', 'wrap_end_gt_360', 'wrap_negative_begin', 'wrap_end_gt_360_before',
-                   'wrap_negative_begin_after'][rng.integers(0, 5)]
-    span = (overlap or '').startswith('wrap_') or (overlap is None and rng.random() < 0.6)
-    b, e, w, g, js = gen_slits_deg(rng, n, span)
-    rep = 'none'
-    if js is not None:
-        rep = 'end>360'
-        neg = (overlap or '').startswith('wrap_negative_begin') or (overlap is None and rng.random() < 0.5)
-        if neg:
-            b[js] -= 360.0
-            e[js] -= 360.0
-            rep = 'negative_begin'
-    frac = rng.uniform(0.05, 0.95)
+PAIR_OVERLAPS = ('linear', 'wrap_end_gt_360', 'wrap_negative_begin', 'wrap_end_gt_360_before',
+                 'wrap_negative_begin_after')
+# slit sets the documentation forbids; the first group exists for every number of slits >= 1
+INVALID_ANY_N = ('reversed_tdc', 'reversed_plain', 'reversed_all', 'self_overlap_end_gt_360',
+                 'self_overlap_negative_begin', 'self_overlap_two_turns')
+INVALID_PAIR = tuple('overlap_' + o for o in PAIR_OVERLAPS) + ('nested', 'duplicate', 'shifted_turn')
+INVALID_PATHS = ('ctor', 'replace', 'nexus_edges', 'nexus_begin_end')
+# valid sets at the edge of what is allowed (deterministic part of every shard)
+VALID_DRIVEN = ('wide_single', 'wide_single_end_gt_360', 'wide_single_negative_begin',
+                'narrow_single')
+VALID_CTOR_ONLY = ('single_nearly_full_turn', 'nearly_touching_line', 'nearly_touching_wrap')
+# exactly on a threshold (zero width, exactly one turn, touching): not judged, the outcome is
+# tallied under 'undecided:slits <threshold>:accepted / rejected with ...'
+THRESHOLD_SETS = ('zero_width', 'zero_width_among', 'full_turn', 'touching_line', 'touching_wrap')
+TINY_DEG = (-5.0, -3.0)   # log10 of a "just invalid / just valid" amount in deg (>= 1.7e-7 rad)
+
+
+def apply_pair_overlap(overlap, b, e, w, g, js, n, frac, rng):
+    """Make two slits of a valid partition overlap (in place).  The spanning slit js is written
+    with end > 360 or with a negative begin and overlaps its neighbour after top-dead-centre (its
+    end reaches into the next slit) or before it (its begin reaches back)."""
     if overlap in ('wrap_end_gt_360', 'wrap_negative_begin_after'):
         nb = (js + 1) % n
         e[js] += g[js] + frac * w[nb]
@@ -589,19 +761,45 @@ def gen_case(rng, ctx):
         i = int(rng.integers(0, n - 1))
         k, k2 = order[i], order[i + 1]
         e[k] += (b[k2] - e[k]) + frac * w[k2]
-    perm = rng.permutation(n)
-    b, e = b[perm], e[perm]
-    a_unit = ['deg', 'rad'][rng.integers(0, 2)]
-    if a_unit == 'rad':
-        b, e = np.radians(b), np.radians(e)
-    c.update(n_slits=n, overlap=overlap, tdc=rep, a_unit=a_unit, begin=b, end=e)
-    # beam position and phase over several turns
+
+
+def gen_frame(rng, c):
+    """Beam position and phase over several turns."""
     for name in ('beam_position', 'phase'):
         u = ['deg', 'rad'][rng.integers(0, 2)]
         v = rng.uniform(-4 * np.pi, 4 * np.pi)
         if rng.random() < 0.1:
             v = 0.0
         c[name] = (float(np.degrees(v)) if u == 'deg' else float(v), u)
+
+
+def gen_case(rng, ctx):
+    c = {}
+    n = int(rng.integers(1, 7))
+    r = rng.random()
+    overlap = None
+    if r < 0.25 and n >= 2:
+        overlap = PAIR_OVERLAPS[rng.integers(0, 5)]
+    span = (overlap or '').startswith('wrap_') or (overlap is None and rng.random() < 0.6)
+    b, e, w, g, js = gen_slits_deg(rng, n, span)
+    rep = 'none'
+    if js is not None:
+        rep = 'end>360'
+        neg = (overlap or '').startswith('wrap_negative_begin') or (overlap is None and rng.random() < 0.5)
+        if neg:
+            b[js] -= 360.0
+            e[js] -= 360.0
+            rep = 'negative_begin'
+    frac = rng.uniform(0.05, 0.95)
+    if overlap is not None:
+        apply_pair_overlap(overlap, b, e, w, g, js, n, frac, rng)
+    perm = rng.permutation(n)
+    b, e = b[perm], e[perm]
+    a_unit = ['deg', 'rad'][rng.integers(0, 2)]
+    if a_unit == 'rad':
+        b, e = np.radians(b), np.radians(e)
+    c.update(n_slits=n, overlap=overlap, tdc=rep, a_unit=a_unit, begin=b, end=e)
+    gen_frame(rng, c)
     # frequencies
     fp_choices = [14.0, 10.0, 25.0, 50.0, 60.0, 100 / 6, float(rng.uniform(1, 100))]
     fp_hz = fp_choices[rng.integers(0, len(fp_choices))]
@@ -629,22 +827,211 @@ def gen_case(rng, ctx):
         delta = -delta
     fp_val = fp_hz / F_UNIT_HZ[fp_unit]
     f_val = sign * ratio * (1.0 + delta) * fp_hz / F_UNIT_HZ[f_unit]
-    via = ['ctor', 'ctor', 'nexus_edges', 'nexus_begin_end'][rng.integers(0, 4)]
+    via = ['ctor', 'ctor', 'nexus_edges', 'nexus_begin_end', 'replace'][rng.integers(0, 5)]
     c.update(fp=(float(fp_val), fp_unit), f=(float(f_val), f_unit), ratio=label, sign=int(sign),
              band=band, via=via)
     return c
 
 
+def gen_exact_frequencies(rng, c):
+    """In-phase chopper (exact ratio 1/2, 1, 2, 3 of either sign), same or different units."""
+    fp_hz = [14.0, 10.0, 50.0][rng.integers(0, 3)]
+    fp_unit = F_UNITS[rng.integers(0, 3)]
+    f_unit = fp_unit if rng.random() < 0.5 else F_UNITS[rng.integers(0, 3)]
+    label, ratio = [('1/2', 0.5), ('1', 1.0), ('2', 2.0), ('3', 3.0)][rng.integers(0, 4)]
+    sign = [-1.0, 1.0][rng.integers(0, 2)]
+    c.update(fp=(float(fp_hz / F_UNIT_HZ[fp_unit]), fp_unit),
+             f=(float(sign * ratio * fp_hz / F_UNIT_HZ[f_unit]), f_unit), ratio=label,
+             sign=int(sign), band='exact')
+
+
+def _tiny(rng):
+    return 10.0 ** rng.uniform(*TINY_DEG)
+
+
+def gen_invalid(rng, cls, n, a_unit, via):
+    """One slit set of class ``cls`` that the documentation forbids, derived from a valid random
+    partition (kept as ``base_*``: what dataclasses.replace starts from).  A quarter of the sets
+    are invalid by a tiny amount only (1e-5..1e-3 deg)."""
+    ov = cls[len('overlap_'):] if cls.startswith('overlap_') else None
+    if cls == 'reversed_tdc' or (ov or '').startswith('wrap_'):
+        span = True
+    elif cls == 'reversed_plain' and n == 1:
+        span = False
+    else:
+        span = bool(rng.random() < 0.5)
+    b, e, w, g, js = gen_slits_deg(rng, n, span)
+    rep = 'none'
+    if js is not None:
+        rep = 'end>360'
+        neg = (ov or '').startswith('wrap_negative_begin') or (
+            not (ov or '').startswith('wrap_end') and rng.random() < 0.5)
+        if neg:
+            b[js] -= 360.0
+            e[js] -= 360.0
+            rep = 'negative_begin'
+    base_b, base_e = b.copy(), e.copy()
+    tiny = bool(rng.random() < 0.25) and cls in ('reversed_plain', 'self_overlap_end_gt_360',
+                                                  'self_overlap_negative_begin',
+                                                  'self_overlap_two_turns', 'overlap_linear')
+    frac = rng.uniform(0.05, 0.95)
+    others = [k for k in range(n) if k != js]
+    j = int(rng.integers(0, n))
+    k = int((j + 1 + rng.integers(0, max(n - 1, 1))) % n)   # another slit (n >= 2)
+    if cls == 'reversed_tdc':
+        # the slit across top-dead-centre written the "natural" way: begin=350 deg, end=10 deg
+        if rep == 'negative_begin':
+            b[js] += 360.0
+        else:
+            e[js] -= 360.0
+    elif cls == 'reversed_plain':
+        j = int(others[rng.integers(0, len(others))])
+        if tiny:
+            e[j] = b[j] - _tiny(rng)
+        else:
+            b[j], e[j] = e[j], b[j]
+    elif cls == 'reversed_all':
+        b, e = e.copy(), b.copy()        # the two arrays passed in the wrong order
+    elif cls == 'self_overlap_end_gt_360':
+        if b[j] < 0:
+            b[j] += 360.0
+        e[j] = b[j] + 360.0 + (_tiny(rng) if tiny else rng.uniform(1.0, 120.0))
+    elif cls == 'self_overlap_negative_begin':
+        if e[j] > 360.0:
+            e[j] -= 360.0
+        b[j] = e[j] - 360.0 - (_tiny(rng) if tiny else rng.uniform(1.0, 120.0))
+    elif cls == 'self_overlap_two_turns':
+        e[j] = b[j] + 720.0 + (_tiny(rng) if tiny else rng.uniform(1.0, 400.0))
+    elif ov is not None:
+        if tiny and ov == 'linear':
+            order = np.argsort(b)
+            i = int(rng.integers(0, n - 1))
+            e[order[i]] = b[order[i + 1]] + _tiny(rng)
+        else:
+            apply_pair_overlap(ov, b, e, w, g, js, n, frac, rng)
+    elif cls == 'nested':
+        b[k] = b[j] + rng.uniform(0.2, 0.4) * w[j]
+        e[k] = b[j] + rng.uniform(0.6, 0.8) * w[j]
+    elif cls == 'duplicate':
+        b[k], e[k] = b[j], e[j]
+    elif cls == 'shifted_turn':
+        s = [-360.0, 360.0][rng.integers(0, 2)]
+        b[k], e[k] = b[j] + s, e[j] + s
+    else:
+        raise AssertionError(cls)
+    perm = rng.permutation(n)
+    b, e, base_b, base_e = b[perm], e[perm], base_b[perm], base_e[perm]
+    if a_unit == 'rad':
+        b, e, base_b, base_e = (np.radians(x) for x in (b, e, base_b, base_e))
+    c = dict(invalid=cls, n_slits=n, tdc=rep, a_unit=a_unit, begin=b, end=e, base_begin=base_b,
+             base_end=base_e, via=via, tiny=tiny, overlap=cls)
+    gen_frame(rng, c)
+    gen_exact_frequencies(rng, c)
+    return c
+
+
+def gen_valid_edge(rng, cls, a_unit, via):
+    """Valid slit sets next to the forbidden ones."""
+    n = 1
+    if cls.startswith('wide_single') or cls == 'narrow_single':
+        w = rng.uniform(200.0, 359.0) if cls.startswith('wide') else rng.uniform(0.5, 20.0)
+        if cls == 'wide_single_end_gt_360':
+            b0 = rng.uniform(360.0 - w + 0.5, 359.5)
+            rep = 'end>360'
+        elif cls == 'wide_single_negative_begin':
+            b0 = -rng.uniform(0.5, w - 0.5)
+            rep = 'negative_begin'
+        else:
+            b0 = rng.uniform(0.0, 360.0 - w)
+            rep = 'none'
+        b, e = np.array([b0]), np.array([b0 + w])
+    elif cls == 'single_nearly_full_turn':
+        b0 = rng.uniform(-180.0, 359.0)
+        b, e = np.array([b0]), np.array([b0 + 360.0 - _tiny(rng)])
+        rep = 'negative_begin' if b0 < 0 else 'end>360'
+    else:
+        n = int(rng.integers(2, 7))
+        b, e, w, g, js = gen_slits_deg(rng, n, cls == 'nearly_touching_wrap')
+        rep = 'none' if js is None else 'end>360'
+        if cls == 'nearly_touching_wrap':
+            if rng.random() < 0.5:
+                b[js] -= 360.0
+                e[js] -= 360.0
+                rep = 'negative_begin'
+            if rng.random() < 0.5:
+                e[js] += g[js] - _tiny(rng)            # ends just before the next slit begins
+            else:
+                b[js] -= g[(js - 1) % n] - _tiny(rng)  # begins just after the previous one ends
+        else:
+            order = np.argsort(b)
+            i = int(rng.integers(0, n - 1))
+            e[order[i]] = b[order[i + 1]] - _tiny(rng)
+        perm = rng.permutation(n)
+        b, e = b[perm], e[perm]
+    if a_unit == 'rad':
+        b, e = np.radians(b), np.radians(e)
+    c = dict(valid_edge=cls, n_slits=n, tdc=rep, a_unit=a_unit, begin=b, end=e, via=via,
+             overlap=None)
+    gen_frame(rng, c)
+    gen_exact_frequencies(rng, c)
+    return c
+
+
+def gen_threshold(rng, cls):
+    """Slit sets exactly on a threshold of the documented rules, in whole degrees (exact)."""
+    n = 1 if cls in ('zero_width', 'full_turn') else int(rng.integers(2, 5))
+    step = 360 // n
+    b = np.array([float(k * step + int(rng.integers(0, 10))) for k in range(n)])
+    e = b + float(int(rng.integers(5, 20)))
+    if cls in ('zero_width', 'zero_width_among'):
+        e[0] = b[0]
+    elif cls == 'full_turn':
+        e[0] = b[0] + 360.0
+    elif cls == 'touching_line':
+        e[0] = b[1]
+    elif cls == 'touching_wrap':
+        e[n - 1] = b[0] + 360.0
+    c = dict(threshold=cls, n_slits=n, tdc='none', a_unit='deg', begin=b, end=e, via='ctor',
+             overlap=None)
+    gen_frame(rng, c)
+    gen_exact_frequencies(rng, c)
+    return c
+
+
+def _edges(values, unit, scalar=False):
+    if scalar:
+        return sc.scalar(float(values[0]), unit=unit)
+    return sc.array(dims=['slit'], values=np.asarray(values, dtype=float), unit=unit)
+
+
 def build(case, DiskChopper):
-    b = sc.array(dims=['slit'], values=case['begin'], unit=case['a_unit'])
-    e = sc.array(dims=['slit'], values=case['end'], unit=case['a_unit'])
+    import dataclasses
+
+    scalar = case['via'] == 'ctor_scalar'
+    b = _edges(case['begin'], case['a_unit'], scalar)
+    e = _edges(case['end'], case['a_unit'], scalar)
     f = sc.scalar(case['f'][0], unit=case['f'][1])
     bp = sc.scalar(case['beam_position'][0], unit=case['beam_position'][1])
     ph = sc.scalar(case['phase'][0], unit=case['phase'][1])
     pos = sc.vector([0.0, 0.0, 7.5], unit='m')
-    if case['via'] == 'ctor':
+    if case['via'] in ('ctor', 'ctor_scalar'):
         return DiskChopper(axle_position=pos, frequency=f, beam_position=bp, phase=ph,
                            slit_begin=b, slit_end=e)
+    if case['via'] == 'replace':
+        # dataclasses.replace on an existing (valid) chopper: the same validation must run
+        if 'base_begin' in case:
+            bb, be = case['base_begin'], case['base_end']
+        else:
+            bb, be = np.array([10.0]), np.array([20.0])
+            if case['a_unit'] == 'rad':
+                bb, be = np.radians(bb), np.radians(be)
+        base = DiskChopper(axle_position=pos, frequency=f, beam_position=bp, phase=ph,
+                           slit_begin=_edges(bb, case['a_unit']), slit_end=_edges(be, case['a_unit']))
+        if np.array_equal(bb, case['begin']) and not np.array_equal(be, case['end']):
+            return dataclasses.replace(base, slit_end=e)
+        if np.array_equal(be, case['end']) and not np.array_equal(bb, case['begin']):
+            return dataclasses.replace(base, slit_begin=b)
+        return dataclasses.replace(base, slit_begin=b, slit_end=e)
     d = {'position': pos, 'rotation_speed': f, 'beam_position': bp, 'phase': ph}
     if case['via'] == 'nexus_edges':
         edges = np.stack([case['begin'], case['end']], axis=1).ravel()
@@ -655,16 +1042,47 @@ def build(case, DiskChopper):
 
 
 def case_descr(case):
-    d = {k: v for k, v in case.items() if k not in ('begin', 'end')}
-    d['begin'] = [float(x) for x in case['begin']]
-    d['end'] = [float(x) for x in case['end']]
+    arrays = ('begin', 'end', 'base_begin', 'base_end')
+    d = {k: v for k, v in case.items() if k not in arrays}
+    for k in arrays:
+        if k in case:
+            d[k] = [float(x) for x in case[k]]
     return d
+
+
+def invalid_grid():
+    """(class, number of slits, angle unit, construction path): every class for every number of
+    slits it exists for (1..6, pairs need >= 2), deg and rad, every path; 0-d edges for one slit."""
+    grid = []
+    for cls in INVALID_ANY_N + INVALID_PAIR:
+        for n in range(1 if cls in INVALID_ANY_N else 2, 7):
+            for a_unit in ('deg', 'rad'):
+                for via in INVALID_PATHS:
+                    grid.append((cls, n, a_unit, via))
+    for cls in INVALID_ANY_N:
+        for a_unit in ('deg', 'rad'):
+            grid.append((cls, 1, a_unit, 'ctor_scalar'))
+    return grid
+
+
+def valid_edge_grid(rep):
+    grid = []
+    paths = ('ctor', 'replace', 'nexus_edges', 'nexus_begin_end')
+    for i, cls in enumerate(VALID_DRIVEN):
+        for j, a_unit in enumerate(('deg', 'rad')):
+            grid.append((cls, a_unit, paths[(i + 2 * j + rep) % 4]))
+    for cls in VALID_CTOR_ONLY:
+        for a_unit in ('deg', 'rad'):
+            for via in paths:
+                grid.append((cls, a_unit, via))
+    return grid
 
 
 # ------------------------------------------------------------------ driver ---
 def plan(tier, seed):
     n = 32 if tier == 'quick' else 1250
-    return [{'choppers': n} for _ in range(16)]
+    reps = 1 if tier == 'quick' else 12
+    return [{'choppers': n, 'grid_reps': reps} for _ in range(16)]
 
 
 def requirements(tier):
@@ -678,18 +1096,62 @@ def requirements(tier):
     }
     if big:
         ev = {k: v * 20 for k, v in ev.items()}
+    # the deterministic grid of forbidden slit sets: 16 shards x reps x (classes x n x unit x path)
+    g = 16 * (12 if big else 1)
+    ev.update({
+        'ctor.must_reject.reversed': 100 * g, 'ctor.must_reject.self_overlap': 100 * g,
+        'ctor.must_reject.overlap': 150 * g,
+        'from_nexus.must_reject.reversed': 50 * g, 'from_nexus.must_reject.self_overlap': 50 * g,
+        'from_nexus.must_reject.overlap': 80 * g, 'from_nexus.must_accept': 10 * g,
+    })
+    ev['ctor.must_reject'] = max(ev['ctor.must_reject'], 400 * g)
+    forced = ['overlap on the line', 'overlap only through TDC, end>360',
+              'overlap only through TDC, negative begin', 'out-of-phase ratio',
+              'ratio perturbed by 1e-7..1e-2', 'in-phase ratio perturbed below 1e-10',
+              'ratio in the undecided band', 'clockwise', 'anticlockwise',
+              'slit spans TDC: end>360', 'slit spans TDC: negative begin',
+              'sub-harmonic chopper', 'chopper faster than source',
+              'cascade npulses 1', 'cascade npulses 2', 'cascade npulses 3',
+              'cascade npulses 4', 'chopper and source frequency in different units',
+              # judged by the constructor monitor
+              'single slit wider than a full turn', 'slit wider than a full turn among several',
+              'reversed single slit', 'reversed slit among several', 'ctor: valid single slit',
+              'from_nexus: reversed', 'from_nexus: self_overlap', 'from_nexus: overlap']
+    forced += [f'forbidden set: {c}' for c in INVALID_ANY_N + INVALID_PAIR]
+    forced += [f'forbidden set via {p}' for p in (*INVALID_PATHS, 'ctor_scalar')]
+    forced += [f'forbidden set with {n} slit(s)' for n in range(1, 7)]
+    forced += ['forbidden set in deg', 'forbidden set in rad', 'forbidden by a tiny amount']
+    forced += [f'valid edge set: {c}' for c in VALID_DRIVEN + VALID_CTOR_ONLY]
+    forced += ['valid set via replace']
     return {
         'events': ev,
-        'forced': ['overlap on the line', 'overlap only through TDC, end>360',
-                   'overlap only through TDC, negative begin', 'out-of-phase ratio',
-                   'ratio perturbed by 1e-7..1e-2', 'in-phase ratio perturbed below 1e-10',
-                   'ratio in the undecided band', 'clockwise', 'anticlockwise',
-                   'slit spans TDC: end>360', 'slit spans TDC: negative begin',
-                   'sub-harmonic chopper', 'chopper faster than source',
-                   'cascade npulses 1', 'cascade npulses 2', 'cascade npulses 3',
-                   'cascade npulses 4', 'chopper and source frequency in different units'],
+        'forced': forced,
         'counters': {'cascade_calls_in_phase': 150 * (20 if big else 1)},
     }
+
+
+def drive(case, ch, ctx, Chopper, sig, pulses, forbidden=False):
+    """Every public call on an accepted chopper (judged by the monitors)."""
+    fp = sc.scalar(case['fp'][0], unit=case['fp'][1])
+    decided = case['band'] != 'undecided'
+    in_phase = case['band'] in ('exact', 'accept')
+    for name in ('time_offset_open', 'time_offset_close', 'open_duration'):
+        try:
+            getattr(ch, name)(pulse_frequency=fp)
+        except Exception:  # noqa: BLE001  (judged by the monitor)
+            pass
+        if decided:
+            ctx.case((name, *sig))
+    for npulses in pulses:
+        try:
+            Chopper.from_disk_chopper(ch, fp, npulses)
+        except Exception:  # noqa: BLE001  (judged by the monitor)
+            pass
+        if decided:
+            ctx.case(('from_disk_chopper', npulses, *sig))
+        if in_phase and not forbidden:
+            ctx.count('cascade_calls_in_phase')
+            ctx.hit(f'cascade npulses {npulses}')
 
 
 def run(shard, ctx):
@@ -705,6 +1167,8 @@ def run(shard, ctx):
     mon = Monitors(ctx)
     tr = Tracer()
     tr.watch(DiskChopper.__post_init__, 'DiskChopper.__post_init__', on_return=mon.on_post_init)
+    tr.watch(DiskChopper.__dict__['from_nexus'], 'DiskChopper.from_nexus',
+             on_return=mon.on_from_nexus)
     tr.watch(DiskChopper.time_offset_open, 'time_offset_open',
              on_return=lambda ev: mon.on_edge_time('open', ev))
     tr.watch(DiskChopper.time_offset_close, 'time_offset_close',
@@ -716,11 +1180,64 @@ def run(shard, ctx):
     for nm in ('_source_phase_factor', 'time_offset_angle_at_beam', '_apply_angle_repetitions'):
         if hasattr(DiskChopper, nm):
             tr.watch(getattr(DiskChopper, nm), nm)
-    for nm in ('_check_edge_overlap', '_is_int_or_inverse_int'):
+    for nm in ('_check_edges', '_check_edge_overlap', '_get_edges_from_nexus',
+               '_is_int_or_inverse_int'):
         if hasattr(dcm, nm):
             tr.watch(getattr(dcm, nm), nm)
 
     with tr:
+        # -- deterministic part of every shard: the forbidden slit sets, class x number of
+        #    slits x unit x construction path (only the numbers are drawn from the shard's rng)
+        rng_g = np.random.Generator(np.random.PCG64([shard['seed'], shard['index'], 10, 1]))
+        for rep in range(int(shard.get('grid_reps', 1))):
+            for cls, n, a_unit, via in invalid_grid():
+                case = gen_invalid(rng_g, cls, n, a_unit, via)
+                descr = case_descr(case)
+                mon.new_case({'generated': descr})
+                before = ctx.n_violations
+                try:
+                    ch = build(case, DiskChopper)
+                except Exception:  # noqa: BLE001  (judged by the monitors through PY_UNWIND)
+                    ch = None
+                sig = ('forbidden', cls, n, a_unit, via)
+                ctx.case(('build', *sig, case['tiny']))
+                ctx.hit(f'forbidden set: {cls}')
+                ctx.hit(f'forbidden set via {via}')
+                ctx.hit(f'forbidden set with {n} slit(s)')
+                ctx.hit(f'forbidden set in {a_unit}')
+                if case['tiny']:
+                    ctx.hit('forbidden by a tiny amount')
+                if ch is not None:
+                    # wrongly accepted: whatever it reports is judged as well
+                    ctx.count('forbidden_set_accepted_and_driven')
+                    drive(case, ch, ctx, Chopper, sig, (1, 2), forbidden=True)
+                if ctx.n_violations > before:
+                    ctx.sample(descr)
+            for cls, a_unit, via in valid_edge_grid(rep + shard['index']):
+                case = gen_valid_edge(rng_g, cls, a_unit, via)
+                descr = case_descr(case)
+                mon.new_case({'generated': descr})
+                before = ctx.n_violations
+                try:
+                    ch = build(case, DiskChopper)
+                except Exception:  # noqa: BLE001
+                    ch = None
+                sig = ('valid_edge', cls, a_unit, via, case['ratio'], case['sign'])
+                ctx.case(('build', *sig))
+                ctx.hit(f'valid edge set: {cls}')
+                if ch is not None and cls in VALID_DRIVEN:
+                    drive(case, ch, ctx, Chopper, sig, (1, 2, 3, 4))
+                if ctx.n_violations > before:
+                    ctx.sample(descr)
+            for cls in THRESHOLD_SETS:
+                case = gen_threshold(rng_g, cls)
+                mon.new_case({'generated': case_descr(case)})
+                try:
+                    build(case, DiskChopper)
+                except Exception:  # noqa: BLE001
+                    pass
+                ctx.count(f'threshold_set_built:{cls}')
+        # -- random part
         for i in range(shard['choppers']):
             case = gen_case(rng, ctx)
             descr = case_descr(case)
@@ -735,46 +1252,37 @@ def run(shard, ctx):
             ctx.case(('ctor', case['overlap'], *sig))
             if i < 1:
                 ctx.sample(descr)
-            if case['overlap'] is not None or ch is None:
+            if ch is None:
                 if ctx.n_violations > before:
                     ctx.sample(descr)
                 continue
+            if case['overlap'] is not None:
+                # overlapping set wrongly accepted: whatever it reports is judged as well
+                ctx.count('forbidden_set_accepted_and_driven')
+                drive(case, ch, ctx, Chopper, ('forbidden', *sig), (1, 2), forbidden=True)
+                if ctx.n_violations > before:
+                    ctx.sample(descr)
+                continue
+            if case['via'] == 'replace':
+                ctx.hit('valid set via replace')
             if case['tdc'] == 'end>360':
                 ctx.hit('slit spans TDC: end>360')
             elif case['tdc'] == 'negative_begin':
                 ctx.hit('slit spans TDC: negative begin')
             ctx.hit('clockwise' if case['sign'] < 0 else 'anticlockwise')
-            fp = sc.scalar(case['fp'][0], unit=case['fp'][1])
-            decided = case['band'] != 'undecided'
             in_phase = case['band'] in ('exact', 'accept')
             if in_phase:
                 ctx.hit('sub-harmonic chopper' if case['ratio'].startswith('1/') else
                         'chopper faster than source' if case['ratio'] != '1' else 'ratio 1')
                 if case['f'][1] != case['fp'][1]:
                     ctx.hit('chopper and source frequency in different units')
-            for name in ('time_offset_open', 'time_offset_close', 'open_duration'):
-                try:
-                    getattr(ch, name)(pulse_frequency=fp)
-                except Exception:  # noqa: BLE001  (judged by the monitor)
-                    pass
-                if decided:
-                    ctx.case((name, *sig))
             pulses = (1, 2, 3, 4) if in_phase else (int(rng.integers(1, 5)),)
-            for npulses in pulses:
-                try:
-                    Chopper.from_disk_chopper(ch, fp, npulses)
-                except Exception:  # noqa: BLE001  (judged by the monitor)
-                    pass
-                if decided:
-                    ctx.case(('from_disk_chopper', npulses, *sig))
-                if in_phase:
-                    ctx.count('cascade_calls_in_phase')
-                    ctx.hit(f'cascade npulses {npulses}')
+            drive(case, ch, ctx, Chopper, sig, pulses)
             if ctx.n_violations > before:
                 ctx.sample(descr)
     ctx.extra['hooked_call_counts'] = dict(tr.counts)
-    for name in ('DiskChopper.__post_init__', 'time_offset_open', 'time_offset_close',
-                 'open_duration', 'from_disk_chopper'):
+    for name in ('DiskChopper.__post_init__', 'DiskChopper.from_nexus', 'time_offset_open',
+                 'time_offset_close', 'open_duration', 'from_disk_chopper'):
         if tr.counts.get(name, 0) == 0:
             ctx.inconclusive_because(f'hooked function {name} was never reached')
 
@@ -791,7 +1299,9 @@ FINDING_PREDICATES = {
     # from_disk_chopper copies the (n+1)-rotation single-pulse result once per pulse:
     # for ratio >= 1 the times are right but the boundary rotation is listed twice
     'chopper_cascade.per_pulse_copy_duplicates': lambda v: (
-        v['kind'] == 'cascade_pulsecopy_ge1.duplicate_opening'
+        # (an opening listed twice also overlaps its copy in time)
+        v['kind'] in ('cascade_pulsecopy_ge1.duplicate_opening',
+                      'cascade_pulsecopy_ge1.overlapping_openings')
         and _k(v).get('per_pulse_copy_of_valid_single_pulse_openings') is True
         and _k(v).get('npulses_gt1') is True and _k(v).get('ratio_class') == 'ge1'),
     # ... and for sub-harmonic choppers a pulse period is not a whole rotation, so the copies
@@ -800,7 +1310,7 @@ FINDING_PREDICATES = {
         v['kind'] == 'cascade_pulsecopy_sub.misplaced_openings'
         and set(_k(v).get('checks') or ['?']) <= {
             'closed_inside_interval', 'open_outside_interval', 'duration', 'slit_multiplicity',
-            'duplicate_opening', 'missing_opening'}
+            'duplicate_opening', 'missing_opening', 'overlapping_openings'}
         and _k(v).get('per_pulse_copy_of_valid_single_pulse_openings') is True
         and _k(v).get('npulses_gt1') is True and _k(v).get('ratio_class') == 'sub'),
     # offsets (unit of 1/pulse_frequency) + openings (unit of 1/chopper frequency): scipp
